@@ -461,6 +461,16 @@ func c07Commands(e *core.Env, r *core.Rand, i int64) {
 				e.Violation("command-panic: "+res.Panic.Site(), fmt.Sprintf("klog %v (two files) with %d CPUs panicked: %s", c, cpus, res.Panic.Value), map[string]any{"text": text, "cmd": c, "cpus": cpus})
 			}
 			outs = append(outs, fmt.Sprintf("%v BIG SMALL => code %d\n%s\n%s", c, res.Code, res.Out, res.Err))
+			// ... and a first file whose last line (a record without entries) has no line ending, followed by a file that starts
+			// with a headline: the files are separate texts, whatever would happen if their bytes were glued together
+			head := writeFile(e.Dir, "in-unterminated.klg", strings.TrimRight(text, "\r\n \t")+"\n\n2031-07-07")
+			next := writeFile(e.Dir, "in-starts-with-date.klg", "2031-07-08\n    1h next file\n")
+			res = obs.RunCLI(env, append(append([]string{}, c...), head, next)...)
+			cnt++
+			if res.Panic != nil {
+				e.Violation("command-panic: "+res.Panic.Site(), fmt.Sprintf("klog %v (unterminated file + next file) with %d CPUs panicked: %s", c, cpus, res.Panic.Value), map[string]any{"text": text, "cmd": c, "cpus": cpus})
+			}
+			outs = append(outs, fmt.Sprintf("%v UNTERMINATED NEXT => code %d\n%s\n%s", c, res.Code, res.Out, res.Err))
 		}
 		for _, c := range mut {
 			f := writeFile(e.Dir, "in.klg", text)
